@@ -534,6 +534,15 @@ func (r *Runner) DoRun(cs Case) (o Obs, ro RunObs, c *network.OneConnection) {
 					ok = s.waitTick(!sent, limit)
 					sent = true
 				}
+			case "@age":
+				// time passes with the connection kept alive; then the real Run ticks once more (penalty.go)
+				if sent && !s.settle(limit) {
+					ok = false
+				} else {
+					c.VerifAgePenalties(int64(tickAhead(m)))
+					ok = s.waitTick(false, limit)
+					sent = true
+				}
 			default:
 				mp, _ := hex.DecodeString(m.Pl)
 				ok = s.deliver(sec.frame(m.Cmd, mp), limit)
